@@ -205,7 +205,9 @@ impl Family for HistoryFam {
                             let cannot_be_next = unsettled.iter().all(|sid| *sid == 0xFFFF_FFFF || top.is_some_and(|t| *sid <= t));
                             let in_flight = case.inflight_yields.is_some() && cannot_be_next && !pending.is_empty();
                             if !pending.is_empty() {
-                                peer.send(&pending).await.ok();
+                                if within(WATCHDOG, peer.send(&pending)).await.is_none() {
+                                    return Err(Fail::plain("C02.stray", "the session under test stopped reading during the history: the peer's frames are no longer taken off the transport (one virtual hour)"));
+                                }
                                 pending.clear();
                             }
                             if in_flight {
@@ -292,8 +294,10 @@ impl Family for HistoryFam {
                     in_batch = 0;
                     if !pending.is_empty() {
                         unsettled.extend(pending.iter().map(|f| f.sid));
-                        if peer.send(&pending).await.is_err() {
-                            return Err(Fail::plain("C02.stray", "the session under test stopped reading (transport closed) during the history"));
+                        match within(WATCHDOG, peer.send(&pending)).await {
+                            Some(Ok(_)) => {}
+                            Some(Err(_)) => return Err(Fail::plain("C02.stray", "the session under test stopped reading (transport closed) during the history")),
+                            None => return Err(Fail::plain("C02.stray", "the session under test stopped reading during the history: the peer's frames are no longer taken off the transport (one virtual hour)")),
                         }
                         pending.clear();
                     }
@@ -311,8 +315,8 @@ impl Family for HistoryFam {
                     }
                 }
             }
-            if !pending.is_empty() {
-                peer.send(&pending).await.ok();
+            if !pending.is_empty() && within(WATCHDOG, peer.send(&pending)).await.is_none() {
+                return Err(Fail::plain("C02.stray", "the session under test stopped reading during the history: the peer's frames are no longer taken off the transport (one virtual hour)"));
             }
             settle(Duration::from_secs(2)).await;
             if let Some(c) = &client {
